@@ -63,6 +63,13 @@ fn specs() -> Vec<RefSpec> {
         m(Some(LevelFilter::Info), &[]),
         m(Some(LevelFilter::Trace), &[]),
         m(None, &[("m", LevelFilter::Debug)]),
+        // a text filter that the probe message does not match: it concerns the primary output
+        // only, the named writers get their records whatever the specification says
+        RefSpec {
+            default: Some(LevelFilter::Info),
+            modules: Vec::new(),
+            regex: Some("q".into()),
+        },
     ]
 }
 
@@ -393,10 +400,12 @@ fn routing(spec_idx: usize, file_primary: bool, with_writers: bool) -> Result<(u
                 let want_a = usize::from(with_writers && named("A"));
                 let want_b = usize::from(with_writers && named("B") && level <= ceil_b);
                 let want_s = usize::from(with_writers && named("S_Default") && level <= ceil_s);
-                let want_p = usize::from(match list {
-                    Some(_) => named("_Default") && spec.enabled(level, mp.unwrap_or("")),
-                    None => spec.enabled(level, target),
-                });
+                let text_ok = spec.regex.as_ref().map_or(true, |r| "x".contains(r.as_str()));
+                let want_p = usize::from(text_ok
+                    && match list {
+                        Some(_) => named("_Default") && spec.enabled(level, mp.unwrap_or("")),
+                        None => spec.enabled(level, target),
+                    });
                 let unknown = if with_writers { usize::from(named(" A")) } else { list.as_ref().map_or(0, |l| l.iter().filter(|i| NAMES[**i] != "_Default").count()) };
                 let want_e = unknown;
                 if list.is_some() && (named("A") || named("B") || named("S_Default")) {
@@ -470,17 +479,31 @@ fn out_format(w: &mut dyn std::io::Write, _now: &mut flexi_logger::DeferredNow, 
 fn duplication_build(d_err: Duplicate) -> Result<u64, Fail> {
     let sc = Scratch::new("c13d");
     let mut n = 0;
-    for (prim, mode) in [(0, false), (1, false), (2, false), (0, true), (2, true)] {
+    // (the builder methods may be called in any order: 3/4 = the duplication is configured before
+    // the output is chosen; 4 = the output is chosen twice, log_to_stdout() first)
+    for (prim, mode) in [(0, false), (1, false), (2, false), (0, true), (2, true), (3, false), (4, false)] {
+        let dup_first = prim >= 3;
+        let replaced = prim == 4;
+        let prim = if prim >= 3 { 0 } else { prim };
         let ceiling = if prim == 1 { LevelFilter::Info } else { LevelFilter::Trace };
-        let variant = format!("{}{}", ["primary-takes-all", "primary-ceiling-info", "do_not_log"][prim], if mode { "/support-capture" } else { "" });
+        let variant = format!("{}{}{}", ["primary-takes-all", "primary-ceiling-info", "do_not_log"][prim], if mode { "/support-capture" } else { "" }, if replaced { "/duplication-first+output-chosen-twice" } else if dup_first { "/duplication-configured-first" } else { "" });
         for d_out in DUPS {
             let rec = Recorder::new(ceiling);
             let mut lb = Logger::with(flexi_logger::LogSpecification::trace()).format(lg::payload_format).format_for_stdout(out_format);
+            if dup_first {
+                lb = lb.duplicate_to_stderr(d_err).duplicate_to_stdout(d_out);
+            }
+            if replaced {
+                lb = lb.log_to_stdout();
+            }
             lb = if prim == 2 { lb.do_not_log() } else { lb.log_to_writer(Box::new(rec.clone())) };
             if mode {
                 lb = lb.write_mode(flexi_logger::WriteMode::SupportCapture);
             }
-            let (logger, handle) = lb.duplicate_to_stderr(d_err).duplicate_to_stdout(d_out).error_channel(ErrorChannel::DevNull).build().map_err(|e| Fail {
+            if !dup_first {
+                lb = lb.duplicate_to_stderr(d_err).duplicate_to_stdout(d_out);
+            }
+            let (logger, handle) = lb.error_channel(ErrorChannel::DevNull).build().map_err(|e| Fail {
                 clause: "machinery",
                 cause: "build".into(),
                 detail: e.to_string(),
